@@ -59,6 +59,7 @@ type Case struct {
 	Key    string      `json:"key,omitempty"` // canonical form for distinctness (default: Coq)
 	Hist   []string    `json:"hist,omitempty"` // op kinds (histogram)
 	Sample interface{} `json:"sample,omitempty"`
+	Tags   []string    `json:"tags,omitempty"` // features used by known-finding signatures
 	Incon  bool        `json:"inconclusive,omitempty"`
 }
 
